@@ -110,11 +110,23 @@ CHECKS["C01"] = dict(
     technique="forward must-dataflow (must-pass-through of a normaliser after the last raw write) + parameter-write summaries over the clang CFG/call graph",
 )
 
+CHECKS["C10"] = dict(
+    text="Static decision of three structural clauses of C10 over src/fpx under the 256- and 381-bit configuration headers (every tower compiles in every configuration; the suite runs those of one curve): every one of the 40 exponentiation siblings (generic, cyclotomic, sparse, simultaneous forms of fp2 ... fp54) consults the sign of each of its exponent parameters on every path returning a power or hands that exponent to a sibling, and answers one for a zero exponent it tells apart (EXP-SIB, forward must-dataflow; 'all exponents incl. 0, negative'); no component of an input element is read in a later statement than a write of an overlapping component of an output element of the same tower type (ALIAS-RW, may-analysis over component paths with symbolic loop indices; 376 output/input pairs); no const input is stored through (CONST-IN). Right level: the suite draws positive exponents and never passes an output that is an input to most of these functions. Every value clause - agreement with polynomial arithmetic modulo the defining polynomials, lazy reduction, sparse and compressed forms, Frobenius constants, square roots - is not decided.",
+    design_ref="DESIGN.md section 10.6 (C10)",
+    note="Trusted: clang parser/CFG, extractor, the name pattern of the siblings (floor 35), the assumption that loops step their index monotonically (an element written in an earlier iteration is a different element), one reviewed ALIAS-RW exception (fp3_srt default arm). Validated on every run by miniatures in sa/selftest/c10.c.",
+    technique="forward must-dataflow (sibling agreement on exponent handling) + field/component-sensitive may-alias read-after-write analysis + parameter-write summaries over the clang CFG",
+)
+
+CHECKS["C16"] = dict(
+    text="Static decision of four structural clauses of C16 over src/fb and src/fbx: all eight selectable inversion algorithms return normally only where fb_is_zero(a) was tested false, the zero side leaving by the error (INV0, sibling agreement; the build selects one variant); the three exponentiation siblings consult the sign of the exponent on every path returning a power and answer one for a zero exponent they tell apart (EXP-SIB); no input element is read in a later statement than a write of an output element that may be the same object (ALIAS-RW); no const input is stored through (CONST-IN). Polynomial arithmetic over GF(2), reduction modulo the configured polynomial, trace/half-trace, the binary-curve group law, halving, Frobenius and every scalar-multiplication value are value properties and are not decided; the binary-curve decoders, recoding buffers and ladders are decided under C07, C08 and C20.",
+    design_ref="DESIGN.md section 10.6 (C16)",
+    note="Trusted: clang parser/CFG, extractor, the sibling name patterns (floors 8 and 3), two reviewed ALIAS-RW exceptions (in-place batch inversion reads element i before writing it). Validated on every run by miniatures in sa/selftest/c16.c.",
+    technique="forward must-dataflow (guard dominance at normal returns, sibling agreement) + may-alias read-after-write analysis + parameter-write summaries over the clang CFG",
+)
+
 NOT_APPLICABLE = {
-    "C10": "every clause is an equality of ring elements for all operand values; no guard, ordering or ownership structure whose violation is visible in the code's shape, and lazy-reduction bounds need a relational numeric domain that goto-analyzer's intervals cannot carry across the *_low calls",
     "C11": "group law, [k]Q, Frobenius eigenvalue and cofactor image are algebraic identities over runtime values; the structural clauses (decoders, buffers, regularity) of the ep2..ep8 siblings are decided under C07, C08 and C20",
     "C14": "conformance of output bytes to FIPS/RFC for every input length is a value property of padding arithmetic; the one structural clause (invalid PKCS#7 padding rejected and the status propagated) is decided under C06",
-    "C16": "polynomial arithmetic over GF(2) and binary-curve identities are value properties; decoder/buffer/regularity clauses of the fb/eb siblings are decided under C07/C08/C20",
     "C17": "value properties of the Edwards group law; the module's structural defects surface under C08 (buffers), C07 (decoder) and C20 (ladder)",
 }
 
